@@ -98,6 +98,11 @@ deriving DecidableEq, Repr
 def Opts.ofBits (n : Nat) : Opts :=
   ⟨n &&& JSON_PARSE_RELAXED != 0, n &&& JSON_PARSE_IGNORE_ENCODING != 0⟩
 
+/-- the options of a context on which `json_set_options` was never called: `json_new_context`
+hands out `JSON_STRICT = 0`, the documented default (json.h: "Default - do strict parsing.  No
+comments, no extra comma." / "The default behavior is to validate UTF-8.") -/
+def Opts.default : Opts := ⟨false, false⟩
+
 /-! ## tables -/
 
 /-- `STATE_STEPS[s][t]` -/
